@@ -1,7 +1,7 @@
 #!/bin/bash
 # re-run every seeded change against the quick check of its property; writes seeded/<name>/recheck.txt
 cd /verif; fail=0
-for d in seeded/*/; do n=$(basename $d); p=$(python3 -c "import json; print(json.load(open('$d/meta.json'))['property'])")
+for d in seeded/C*/; do n=$(basename $d); p=$(python3 -c "import json; print(json.load(open('$d/meta.json'))['property'])")
   git -C /repo apply /verif/$d/patch.diff || { echo "$n: apply failed"; fail=1; continue; }
   o=$(/verif/run $p quick 2>&1); rc=$?
   git -C /repo checkout -- .
